@@ -9,12 +9,16 @@ from pyvc.runner import group, REPO
 from .common_io import signature_obligations, sha_files
 
 LEVEL = 'exploration'
-EXPLANATION = ("The reader is pandas.read_csv driven by line counting; no contract within reach of the available verifiers can express pandas' row semantics, so this property is "
-               "decided by exploration: the static obligation that every pandas call binds to the installed signature is exact, everything else is a bounded run-time contract "
-               "check of Log.read / flatten against an independent log model over synthesised logs (both memory banners, 0-4 runs, thermo keyword sets with int and float columns, "
-               "overlapping/disjoint step ranges, with/without timing breakdown, complete or truncated, text/path/stream input, read sequences with append True/False).")
-ASSUMPTIONS = ["logs are synthesised from the documented LAMMPS layout; pandas behaviour is not assumed"]
-UNCOVERED = ["log layouts outside the synthesised family (old-version timing blocks, warnings interleaved inside thermo output)"]
+EXPLANATION = ("The reader is a line scanner that locates tables and hands them to pandas.read_csv. PROVED on the real source (blocks extracted mechanically): the scanner's per-line "
+               "transfer contract for every class of line (the loop uses a line only through blankness, the version banner test and membership of six trigger texts -- checked "
+               "statically -- so the finite case analysis is exact and, by induction over the lines, the start/end lists hold the positions of the trigger lines of any log), and the "
+               "dispatch block (which ranges are read, in which order, which run a timing table is attached to, unterminated tables). pandas' row semantics (how header=/nrows= "
+               "select rows, dtype inference) cannot be expressed by any contract within reach, so the end-to-end clause 'run by run, column by column, value by value' is a "
+               "bounded run-time contract check of Log.read / flatten against an independent log model over synthesised logs (both memory banners, 0-4 runs, int and float "
+               "columns, overlapping/disjoint step ranges, with/without timing breakdown, complete or truncated, text/path/stream input, append True/False): level exploration.")
+ASSUMPTIONS = ["pandas.read_csv(header=h, nrows=n, skip_blank_lines=True) reads the h-th non-blank line as column names and the next n as rows: not assumed in proofs, exercised by the bounded family",
+               "logs of the bounded family are synthesised from the documented LAMMPS layout"]
+UNCOVERED = ["pandas parsing of the located tables beyond the bounded family", "old-version timing blocks (parsed with a pandas API removed from the installed version)"]
 
 LOGF = 'atomman/lammps/Log.py'
 
@@ -218,3 +222,216 @@ def log_family(tier, seed):
         seen.setdefault(f['key'], f)
     return {'family': 'synthesised LAMMPS logs', 'evaluations': evals, 'distinct_nontrivial': nontriv, 'rule': 'see group rule', 'samples': samples, 'failures': list(seen.values())[:12],
             'files': sha_files([LOGF])}
+
+
+# ----------------------------------------------------------------------------
+# the line scanner of Log.read: per-line transfer contract (finite, exact abstraction) and the dispatch of the table reads
+
+import ast as _ast
+from pyvc import symnp as snp
+from pyvc.sym import Sym
+from pyvc.extract import extract as _extract, extract_range as _extract_range, find_function as _find_function
+from .common import And, Or, Not
+
+TRIG = {'ts1': 'Memory usage per processor =', 'ts2': 'Per MPI rank memory allocation (min/avg/max) =', 'te': 'Loop time of', 'ps': 'MPI task timing breakdown',
+        'pso': 'Pair  time (%)', 'pe': 'Nlocal:'}
+
+
+def _is_line_for(n):
+    return isinstance(n, _ast.For) and isinstance(n.target, _ast.Name) and n.target.id == 'line'
+
+
+def _replay_log(stem, vals):
+    from pyvc.native import atomman
+    import numpy as np
+    am = atomman()
+    msgs = []
+    try:
+        rng = np.random.RandomState(3)
+        for nruns, banner, timing in ((1, 0, True), (3, 1, True), (2, 0, False)):
+            text, model = synth_log(rng, nruns, banner, False, timing, False)
+            log = am.lammps.Log(io.BytesIO(text.encode('utf-8')))
+            check_sims(log.simulations, model, msgs, 'replay nruns=%d: ' % nruns)
+    except Exception as e:
+        msgs.append('raised %s: %s' % (type(e).__name__, e))
+    return (len(msgs) > 0, '; '.join(msgs[:3]) if msgs else 'float replay of the log-reader contracts found no disagreement')
+
+
+@group('log.scan.transfer', files=[LOGF], functions=['lammps.Log.read (block: line loop)'],
+       clause='the line loop of Log.read, extracted mechanically and executed on one line from an arbitrary scanner state (symbolic line counter, arbitrary lists), for every class of '
+              'line (blank; LAMMPS version banner; every subset of the six trigger texts): a blank line changes nothing; any other line advances the counter of non-blank lines by '
+              'one; a memory banner appends counter+1 to the thermo starts, otherwise "Loop time of" appends counter-1 to the thermo ends; "MPI task timing breakdown" appends '
+              'counter+1 to the performance starts; the old-style "Pair  time (%)" appends the counter and sets the old-version flag, otherwise "Nlocal:" appends counter-1 to the '
+              'performance ends; the version is read from the first banner only. The loop uses the line only through these tests (static), so by induction over the lines the four '
+              'lists hold exactly the positions, counted in non-blank lines, of the trigger lines of ANY log', replay=_replay_log, timeout_ms=20000)
+def scan_transfer(E, L):
+    block, info = _extract(L, LOGF, 'read', _is_line_for)
+    E.prove('scan.block_found', info['last_line'] > info['first_line'])
+    # static: every use of `line` inside the loop is one of the whitelisted tests
+    mod = L.load(LOGF)
+    import os as _os
+    text = L.source_text(_os.path.join(L.repo, LOGF))
+    fn = _find_function(_ast.parse(text), 'read')
+    loop = [n for n in _ast.walk(fn) if _is_line_for(n)][0]
+    uses = []
+    parents = {}
+    for n in _ast.walk(loop):
+        for ch in _ast.iter_child_nodes(n):
+            parents[ch] = n
+    for n in _ast.walk(loop):
+        if isinstance(n, _ast.Name) and n.id == 'line' and isinstance(n.ctx, _ast.Load):
+            p = parents[n]
+            uses.append(_ast.unparse(parents.get(p, p)) if isinstance(p, (_ast.Attribute, _ast.Subscript)) else _ast.unparse(p))
+    allowed = {"line.decode('UTF-8')", 'line.split()', "line[:8] == 'LAMMPS ('", 'trigger in line', 'self.__read_lammps_version(line)'}
+    E.prove('scan.line_used_only_through_tests', set(uses) <= allowed and len(uses) >= 8)
+    i0 = E.int('i')
+    E.assume(i0 >= 0)
+    E.canary('scan.canary', i0 == 5)
+    names = sorted(TRIG)
+    ncase = 0
+    for blank, banner, had_version in itertools.product((False, True), (False, True), (False, True)):
+        for mask in itertools.product((False, True), repeat=len(names)):
+            if blank and (banner or any(mask)):
+                continue
+            present = [nm for nm, m in zip(names, mask) if m]
+            line = '   \n' if blank else ((('LAMMPS (29 Oct 2020)' if banner else 'xx') + ' ' + ' | '.join(TRIG[nm] for nm in present)) + ' tail\n')
+            versions = []
+
+            class S(object):
+                pass
+            self_ = S()
+            self_.lammps_version = 'already' if had_version else None
+            setattr(self_, '__read_lammps_version', lambda ln, versions=versions: versions.append(ln))
+            state = dict(log_info=[line.encode('utf-8')], self=self_, i=i0, thermo_headers=['TH'], thermo_footers=['TF'], performance_headers=['PH'], performance_footers=['PF'],
+                         is_old_version='OLD', thermo_start_trigger=[TRIG['ts1'], TRIG['ts2']], thermo_end_trigger=[TRIG['te']], performance_start_trigger=[TRIG['ps']],
+                         performance_start_trigger_old_version=[TRIG['pso']], performance_end_trigger=[TRIG['pe']])
+            out = block(state)
+            tag = 'scan.transfer[%d]' % ncase
+            ncase += 1
+            ts = 'ts1' in present or 'ts2' in present
+            want_th = ['TH'] + ([i0 + 1] if ts else [])
+            want_tf = ['TF'] + ([i0 - 1] if (not ts and 'te' in present) else [])
+            want_ph = ['PH'] + ([i0 + 1] if 'ps' in present else []) + ([i0] if 'pso' in present else [])
+            want_pf = ['PF'] + ([i0 - 1] if ('pso' not in present and 'pe' in present) else [])
+
+            def same(a, b):
+                return len(a) == len(b) and all((x is y) or (isinstance(x, Sym) and isinstance(y, Sym) and x.t is y.t) or (not isinstance(x, Sym) and not isinstance(y, Sym) and x == y)
+                                                for x, y in zip(a, b))
+            if blank:
+                E.prove(tag + '.blank_changes_nothing', out['i'] is i0 and same(out['thermo_headers'], ['TH']) and same(out['thermo_footers'], ['TF'])
+                        and same(out['performance_headers'], ['PH']) and same(out['performance_footers'], ['PF']) and out.get('is_old_version', 'OLD') == 'OLD' and not versions)
+                continue
+            E.prove(tag + '.counter_advances', out['i'] == i0 + 1)
+            E.prove(tag + '.lists', same(out['thermo_headers'], want_th) and same(out['thermo_footers'], want_tf) and same(out['performance_headers'], want_ph)
+                    and same(out['performance_footers'], want_pf))
+            E.prove(tag + '.old_version_flag', out.get('is_old_version', 'OLD') == (True if 'pso' in present else 'OLD'))
+            E.prove(tag + '.version_from_first_banner_only', len(versions) == (1 if (banner and not had_version) else 0))
+    E.prove('scan.cases', ncase == 2 * 2 * 64 + 2)
+
+
+def _is_append_total(n):
+    return (isinstance(n, _ast.Expr) and isinstance(n.value, _ast.Call) and _ast.unparse(n.value) == 'thermo_footers.append(i)')
+
+
+def _is_perf_for(n):
+    return isinstance(n, _ast.For) and isinstance(n.target, _ast.Name) and n.target.id == 'header' and 'performance_headers' in _ast.unparse(n.iter)
+
+
+@group('log.scan.dispatch', files=[LOGF], functions=['lammps.Log.read (block: table dispatch)'],
+       clause='after the scan (block extracted mechanically, lists of symbolic increasing line positions): the end of the file closes an unterminated thermo table; the k-th thermo table '
+              'is read with header = k-th start and nrows = k-th end - k-th start, in order, as a new simulation; each timing table is read from its start to the first end at or '
+              'after it and attached to the simulation of the last thermo table starting at or before it (counting from the simulations already present when appending)',
+       replay=_replay_log, timeout_ms=30000)
+def scan_dispatch(E, L):
+    block, info = _extract_range(L, LOGF, 'read', _is_append_total, _is_perf_for)
+    E.prove('dispatch.block_found', info['last_line'] > info['first_line'])
+    first = True
+    for nth, ntf, nperf, existing in ((1, 1, 1, 0), (2, 2, 2, 1), (2, 1, 1, 0), (3, 3, 0, 2), (1, 0, 0, 0)):
+        th = [E.int('th%d' % k) for k in range(nth)]
+        tf = [E.int('tf%d' % k) for k in range(ntf)]
+        total = E.int('total')
+        # scanner invariants: starts and ends alternate in file order
+        seq = []
+        for k in range(nth):
+            seq.append(th[k])
+            if k < ntf:
+                seq.append(tf[k])
+        E.assume(seq[0] >= 1)
+        for a_, b_ in zip(seq, seq[1:]):
+            E.assume(a_ < b_)
+        E.assume(total > seq[-1])
+        # timing tables: the k-th follows the k-th thermo end
+        ph = [E.int('ph%d' % k) for k in range(nperf)]
+        pf = [E.int('pf%d' % k) for k in range(nperf)]
+        for k in range(nperf):
+            E.assume(ph[k] > tf[k])
+            E.assume(pf[k] > ph[k])
+            if k + 1 < nth:
+                E.assume(pf[k] < th[k + 1])
+            else:
+                E.assume(pf[k] < total)
+        if first:
+            E.canary('dispatch.canary', th[0] == 7)
+            first = False
+        calls = []
+
+        class Sim(object):
+            def __init__(self, tag):
+                self.tag = tag
+                self.performance = None
+
+        class S(object):
+            pass
+        self_ = S()
+        self_.simulations = [Sim('old%d' % k) for k in range(existing)]
+
+        def read_thermo(log_info, header, footer, self_=self_):
+            calls.append(('thermo', header, footer))
+            self_.simulations.append(Sim('new%d' % (len(self_.simulations))))
+
+        def read_perf(log_info, header, footer, old, calls=calls):
+            calls.append(('perf', header, footer, old))
+            return ('PERF', header)
+        setattr(self_, '__read_thermo', read_thermo)
+        setattr(self_, '__read_performance', read_perf)
+
+        class F(object):
+            def seek(self, k):
+                calls.append(('seek', k))
+        state = dict(self=self_, log_info=F(), i=total, thermo_headers=list(th), thermo_footers=list(tf), performance_headers=list(ph), performance_footers=list(pf),
+                     is_old_version=False)
+        out = block(state)
+        tag = 'dispatch[%d,%d,%d,%d]' % (nth, ntf, nperf, existing)
+        tcalls = [c for c in calls if c[0] == 'thermo']
+        E.prove(tag + '.one_read_per_thermo_table', len(tcalls) == nth and len(self_.simulations) == existing + nth)
+        ends = list(tf) + [total]
+        for k in range(nth):
+            E.prove(tag + '.thermo_range[%d]' % k, And(tcalls[k][1] == th[k], tcalls[k][2] == ends[k]))
+        pcalls = [c for c in calls if c[0] == 'perf']
+        E.prove(tag + '.one_read_per_timing_table', len(pcalls) == nperf)
+        for k in range(nperf):
+            E.prove(tag + '.timing_range[%d]' % k, And(pcalls[k][1] == ph[k], pcalls[k][2] == pf[k]))
+            sim = self_.simulations[existing + k]
+            E.prove(tag + '.timing_attached_to_its_run[%d]' % k, isinstance(sim.performance, tuple) and sim.performance[1] is pcalls[k][1])
+        E.prove(tag + '.earlier_simulations_untouched', all(s.performance is None for s in self_.simulations[:existing]))
+        E.prove(tag + '.rewinds_before_reading', calls[0] == ('seek', 0))
+    # a timing table that is never closed (truncated log) is skipped without error
+    th0, tf0, ph0, total = E.int('u_th'), E.int('u_tf'), E.int('u_ph'), E.int('u_total')
+    E.assume(And(th0 >= 1, tf0 > th0, ph0 > tf0, total > ph0))
+    calls = []
+
+    class Sim2(object):
+        performance = None
+
+    class S2(object):
+        pass
+    self_ = S2()
+    self_.simulations = []
+    setattr(self_, '__read_thermo', lambda li, h, f: (calls.append(('thermo', h, f)), self_.simulations.append(Sim2()))[0])
+    setattr(self_, '__read_performance', lambda li, h, f, o: calls.append(('perf', h, f)))
+
+    class F2(object):
+        def seek(self, k):
+            pass
+    block(dict(self=self_, log_info=F2(), i=total, thermo_headers=[th0], thermo_footers=[tf0], performance_headers=[ph0], performance_footers=[], is_old_version=False))
+    E.prove('dispatch.unterminated_timing_table_skipped', [c[0] for c in calls] == ['thermo'] and self_.simulations[0].performance is None)
